@@ -10,7 +10,7 @@ From Coq Require Import NArith ZArith List Bool.
 From ST Require Import Base.Outcome Base.Units Utf.Spec Utf.Tokens Utf.Model Utf.ProofsC01 Utf.ProofsC03 Utf.ApiCoverage.
 From ST Require Utf.LeafBridge Gen.Leaf.
 From ST Require Utf.LoopBridge Utf.LoopBridgeMeasure Utf.LoopBridgeConvert32 Utf.LoopBridgeConvert16To8.
-From ST Require Utf.SourceFit Utf.SourceFit2 Utf.SourceFit3 Utf.SourceFit4.
+From ST Require Utf.SourceFit Utf.SourceFit2 Utf.SourceFit3 Utf.SourceFit4 Utf.SourceFit5.
 Import ListNotations.
 Local Open Scope N_scope.
 
@@ -261,3 +261,16 @@ Theorem utf16_to_utf8_source_passes_fit : forall l m fuel, all_lt 65536 l = true
     (length ws <= n)%nat /\ (e = CSuccess -> length ws = n).
 Proof. exact ST.Utf.SourceFit4.utf16_to_utf8_source_passes_fit. Qed.
 Print Assumptions utf16_to_utf8_source_passes_fit.
+
+(* the two widening copies from Latin-1: the translated passes store exactly the `size` units latin_1_to_utf16 /
+   latin_1_to_utf32 allocate — with these, all twelve conversion passes are fitted at the source level *)
+Theorem latin_1_widening_source_passes_fit : forall l fuel, all_lt 256 l = true -> (length l < fuel)%nat ->
+  (exists ws, ST.Gen.Leaf.src_utf16_convert_from_latin_1 fuel (ST.Utf.LoopBridge.arr8s l) (Z.of_nat (length l)) = Some ws /\
+              length ws = length l) /\
+  (exists ws, ST.Gen.Leaf.src_utf32_convert_from_latin_1 fuel (ST.Utf.LoopBridge.arr8s l) (Z.of_nat (length l)) = Some ws /\
+              length ws = length l).
+Proof.
+  exact (fun l fuel A Hf => conj (ST.Utf.SourceFit5.latin_1_to_utf16_source_pass_fits l fuel A Hf)
+                                 (ST.Utf.SourceFit5.latin_1_to_utf32_source_pass_fits l fuel A Hf)).
+Qed.
+Print Assumptions latin_1_widening_source_passes_fit.
